@@ -47,6 +47,12 @@ CHECKS.update({
  "C18": ("3/C18", "Full product grid: 256 cache states (SRV/TXT/A/AAAA in absent/fresh/stale/expired-unpurged) x 3 timeouts x arrival instant of each missing record (never, 50, 250, timeout-1, timeout, timeout+1 ms) x forced type on a real AsyncServiceInfo.async_request; return time, success iff SRV and an unexpired address were known in time, field provenance (expired copies carry different rdata), query trace.",
          "Trusted: missing records arrive one per datagram; equality with the deadline accepts both results; cache-flush grace second as in C06."),
 })
+CHECKS.update({
+ "C16": ("3/C16", "The complete tree of histories of <= 2 (thorough 3) datagrams over a 16-datagram query/response alphabet x gaps 1/500/1001 ms x three ages of the host's own records x jitter low/high; every history is executed three times in identical worlds (plain / QU-free datagrams doubled / all doubled) and traces and callback logs are compared exactly.",
+         "Trusted: constant jitter per triple. One open known finding (duplicated QU queries are processed twice) is reported as KNOWN-FINDING; any other difference is a violation."),
+ "C17": ("3/C17", "For three busy scenarios the reference run yields every instant at which a timer or datagram was processed; close is requested at each of them and 1 ms before/after, via async_close and via Zeroconf.close from outside the loop; then a second close, 3 h of virtual time and 9 rounds of fresh traffic. Oracle: goodbyes for everything registered, sockets closed, no datagram, no listener/browser callback, no exception afterwards.",
+         "Trusted: caller-thread seam for the sync API; AsyncServiceBrowser only (no OS threads)."),
+})
 NOT_YET = {}
 
 def main():
